@@ -541,7 +541,7 @@ func (g *gen) command() *Stmt {
 func (g *gen) wait() *Stmt {
 	vals := g.cfg.WaitVals
 	if len(vals) == 0 {
-		vals = []float64{0, 1, 2, 0.5, 2.75, 0.25, 3, 10, 0.1, 1.3, 600, 0.125, 0.0009, 0.0109, 1.001, 2.0005, 0.00015, 0.0009765625, 59.9999}
+		vals = []float64{1, 2, 0.5, 2.75, 0.25, 3, 10, 0.1, 1.3, 600, 0.125, 0.0009, 0.0109, 1.001, 2.0005, 0.00015, 0.0009765625, 59.9999}
 	}
 	v := vals[g.tp.Int(0, len(vals)-1, "waitval")]
 	if g.tp.Chance(20, "waitexpr") {
